@@ -34,6 +34,8 @@ type Link struct {
 	PolIPLD   bool       `json:"pol_via_ipld,omitempty"`
 	Nbf       *int64     `json:"nbf,omitempty"` // seconds relative to now
 	Exp       *int64     `json:"exp,omitempty"`
+	NbfAbs    *int64     `json:"nbf_abs,omitempty"` // absolute unix seconds (must be in the future: WithNotBefore)
+	ExpAbs    *int64     `json:"exp_abs,omitempty"` // absolute unix seconds (must be in the future: WithExpiration)
 	Missing   bool       `json:"missing,omitempty"`
 	LoaderErr bool       `json:"loader_err,omitempty"`
 	Decoded   bool       `json:"decoded,omitempty"`
@@ -140,6 +142,12 @@ func BuildLink(l Link) (*delegation.Token, cid.Cid, []byte, error) {
 	}
 	if l.Exp != nil {
 		opts = append(opts, delegation.WithExpirationIn(dur(*l.Exp)))
+	}
+	if l.NbfAbs != nil {
+		opts = append(opts, delegation.WithNotBefore(time.Unix(*l.NbfAbs, 0)))
+	}
+	if l.ExpAbs != nil {
+		opts = append(opts, delegation.WithExpiration(time.Unix(*l.ExpAbs, 0)))
 	}
 	tkn, err := delegation.New(Prin(l.Iss).DID, Prin(l.Aud).DID, cmd, p, opts...)
 	if err != nil {
@@ -433,6 +441,10 @@ func Eval(c Case) Rules {
 			r.R[9] = false
 		}
 		if l.Nbf != nil && *l.Nbf > 0 {
+			r.R[9] = false
+		}
+		// absolute bounds are only ever generated far (>= 100 years) in the future
+		if l.NbfAbs != nil {
 			r.R[9] = false
 		}
 	}
